@@ -19,11 +19,13 @@ def float4 : Nat := 700
 def float8 : Nat := 701
 def varchar : Nat := 1043
 def uuid : Nat := 2950
+/-- a user-registered type (the harness registers it through `ExtendTypes` with the text codec) -/
+def ztext : Nat := 90001
 end Oid
 
 def supportedOid (o : Nat) : Bool :=
   o = Oid.bool || o = Oid.bytea || o = Oid.int8 || o = Oid.int2 || o = Oid.int4 || o = Oid.text
-  || o = Oid.float4 || o = Oid.float8 || o = Oid.varchar || o = Oid.uuid
+  || o = Oid.float4 || o = Oid.float8 || o = Oid.varchar || o = Oid.uuid || o = Oid.ztext
 
 /-- values a handler hands to `DataWriter.Row`, and values decoders return -/
 inductive Val where
@@ -84,7 +86,7 @@ def encodeTyped (o : Nat) (fmt : Nat) : Val → EncRes
       if i < lo ∨ i > hi then .err
       else if fmt = 1 then .ok (some (beInt (intWidth o) i)) else .ok (some (decInt i))
     | none => .err
-  | .text s => if o = Oid.text ∨ o = Oid.varchar then .ok (some s) else .err
+  | .text s => if o = Oid.text ∨ o = Oid.varchar ∨ o = Oid.ztext then .ok (some s) else .err
   | .bytea s =>
     if o = Oid.bytea then
       (if fmt = 1 then .ok (some s) else .ok (some ([92, 120] ++ hexLower s)))
@@ -138,7 +140,7 @@ def decodeVal (o : Nat) (fmt : Nat) (src : Option Bytes) : DecRes :=
   | none => .ok .null
   | some b =>
     if fmt ≠ 0 ∧ fmt ≠ 1 then .unsupported
-    else if o = Oid.text ∨ o = Oid.varchar then .ok (.text b)
+    else if o = Oid.text ∨ o = Oid.varchar ∨ o = Oid.ztext then .ok (.text b)
     else if o = Oid.int2 ∨ o = Oid.int4 ∨ o = Oid.int8 then
       if fmt = 1 then
         (if b.length ≠ intWidth o then .err
